@@ -28,7 +28,7 @@ def build_plan(tier, seed):
     for k in ("reverse", "union", "double", "drop_small", "drop_any"):
         main += [s for s in der[k] if s]
     main += gen.redox_triggers(rng, n_red)
-    main += [s_ for s_ in gen.element_swaps(30 if quick else None, rng) if oracle_parses(s_)]
+    main += [s_ for s_ in gen.element_swaps() if oracle_parses(s_) and (not quick or "Cl" not in s_)]
     main += gen.BALANCED_SPECIAL + gen.UNBALANCED_SPECIAL + gen.marker_inputs()
     main += corpus.sample(corpus.plain_reactions(), 40 if quick else 600, rng)
     # de-duplicate, keep order
